@@ -680,7 +680,7 @@ theorem union_shape {cfg : GenCfg} {e : EqEnv} {f : Nat} {ms : List Ty} {t' : Ty
   have hreg : ∀ t ∈ ms, ∀ k, t = .ser k → cfg.reg.types.contains k = true := by
     intro t ht k hk
     have := hm t ht; rw [hk] at this; simpa [rawD] using this
-  rw [optimizeUnion_body, split_optFree cfg.reg ms {} (fun t ht => ⟨rawD_not_opt (hm t ht), hreg t ht⟩)] at h
+  rw [optimizeUnion_body _ _ _ _ (raw_hidden sh hm), split_optFree cfg.reg ms {} (fun t ht => ⟨rawD_not_opt (hm t ht), hreg t ht⟩)] at h
   unfold unionBody at h
   simp only [List.nil_append, bind, Except.bind] at h
   split at h
